@@ -166,6 +166,11 @@ impl Campaign for C01c {
                 }
                 sc.programs.insert(id.clone(), p);
             }
+            if g.chance(1, 5) {
+                // a malformed request ends the pipeline: its 400 is written by the connection
+                // thread itself and has to wait for every earlier response
+                msgs.push(g.pick(&[&b"BROKEN\r\n\r\n"[..], &b"GET /x HTTP/1.7\r\nX-Id: c9r9\r\n\r\n"[..], &b"GET /x HTTP/1.1\r\nNoColon\r\n\r\n"[..]]).to_vec());
+            }
             let seg = match g.below(4) {
                 0 => Seg::Whole,
                 1 => Seg::PerMessage,
@@ -214,6 +219,11 @@ impl Campaign for C01c {
             // expected sequence of wire messages
             let mut exp: Vec<(String, Expect)> = Vec::new();
             for r in &reqs {
+                if r.class != crate::httpmodel::Class::Valid {
+                    // the automatic rejection, written by the connection thread (body not specified)
+                    exp.push(("<400>".to_string(), Expect::Msg(400, vec![])));
+                    continue;
+                }
                 let id = r.id.clone().unwrap_or_default();
                 let p = sc.programs.get(&id).unwrap_or(&sc.default_program);
                 exp.push((id, expect_of(p, r.is_head)));
@@ -228,7 +238,7 @@ impl Campaign for C01c {
             // the body of the automatic 500 is not specified: matched by status alone
             let auto: Vec<bool> = exp_msgs
                 .iter()
-                .map(|m| matches!(sc.programs.get(&m.0).map(|p| &p.finish), Some(Finish::Drop) | Some(Finish::Panic)))
+                .map(|m| m.0 == "<400>" || matches!(sc.programs.get(&m.0).map(|p| &p.finish), Some(Finish::Drop) | Some(Finish::Panic)))
                 .collect();
             // (a) raw token runs: contiguous and ordered
             let runs = token_runs(&co.received.0);
